@@ -153,9 +153,11 @@ func (k *Keeper) WriteAcknowledgementForForwardedPacket(ctx sdk.Context, packet 
 
 			k.unescrowToken(ctx, coin)
 		}
-	} else {
+	} else if packet.SourcePort != inFlightPacket.RefundPortId || packet.SourceChannel != inFlightPacket.RefundChannelId {
 		// Funds in the escrow account were burned,
 		// so on a timeout or acknowledgement error we need to mint the funds back to the escrow account.
+		// NOTE: if the packet was forwarded back over the channel it arrived on, the vouchers were minted
+		// on arrival and never escrowed, so burning them already restored the original state.
 		if err := k.bankKeeper.MintCoins(ctx, transfertypes.ModuleName, newToken); err != nil {
 			return fmt.Errorf("cannot mint coins to the %s module account: %w", transfertypes.ModuleName, err)
 		}
